@@ -415,6 +415,56 @@ def c19_run(ctx):
     C.prune_cache()
 
 
+def memcheck_pass(ctx, mc_cfgs):
+    """the machine harness under valgrind memcheck, the memory an instance is built over marked indeterminate ("no read
+    of an indeterminate value", C18; "never of the prior contents of the memory", C17): a never-initialised member or
+    stack temporary that is later read is reported at the read, whatever byte happens to be there"""
+    def memcheck_one(cfg):
+        exe, logtxt = MM.build(cfg, memcheck=True)
+        if exe is None:
+            return {"what": "memcheck machine harness does not compile: " + cfg.cfg_line()[:100], "log": "\n".join([l for l in logtxt.split("\n") if "error" in l][:8])}, 0
+        import zlib
+        rng = random.Random(ctx.seed * 7919 + zlib.crc32(cfg.cfg_line().encode()) % 10007)
+        cases = [MM.gen_case(rng, cfg, "m%d" % k, rng.randint(8, 24)) for k in range(60 if ctx.thorough else 18)]
+        if cfg.plans:
+            cases += [MM.statusfirst_case(rng, cfg, "msf%d" % k) for k in range(16 if ctx.thorough else 5)]
+            cases += [MM.reactivation_case(rng, cfg, "mra%d" % k) for k in range(16 if ctx.thorough else 5)]
+
+        def vg(cs, t=600):
+            import subprocess
+            try:
+                return C.run(["valgrind", "-q", "--error-exitcode=9", "--track-origins=yes", exe], input="\n".join(l for c in cs for l in c) + "\n", timeout=t)
+            except subprocess.TimeoutExpired:
+                return -999, ""
+        rc, out = vg(cases)
+        if rc in (0, -999):
+            return None, len(cases)
+        bad, txt = None, out
+        for c in cases:
+            rc1, out1 = vg([c], 120)
+            if rc1 not in (0, -999):
+                bad, txt = c, out1
+                break
+        err = [l for l in txt.split("\n") if l.startswith("==")][:14]
+        return {"what": "valgrind memcheck reports an error in the machine harness (memory under a fresh instance counted as indeterminate): "
+                        + (err[0] if err else "rc=%s" % rc), "valgrind": err, "cfg": cfg.cfg_line(), "minimal_case": bad}, len(cases)
+    with ThreadPoolExecutor(max_workers=C.NCPU) as ex:
+        mres = list(ex.map(memcheck_one, mc_cfgs))
+    ctx.extra["memcheck"] = {"configurations": len(mc_cfgs), "cases": sum(n for _, n in mres), "errors": sum(1 for f, _ in mres if f)}
+    ctx.stats["evaluations"] += sum(n for _, n in mres)
+    for f, _ in mres:
+        if f:
+            ctx.failures.append(f)
+
+
+
+def c17_run(ctx):
+    machine_run("C17", ("random", "reactivate"))(ctx)
+    # "never of the prior contents of the memory it is constructed in": decided directly by memcheck
+    cfgs = MM.thorough_configs(ctx.rng) if ctx.thorough else MM.quick_configs(ctx.rng)
+    memcheck_pass(ctx, cfgs if ctx.thorough else cfgs[3:6])
+
+
 def c18_run(ctx):
     # sanitizer builds of both harnesses on the same kind of cases
     caps = sorted({c for e in K.QUICK_CAPS for c in K.QUICK_CAPS[e]})
@@ -472,47 +522,7 @@ def c18_run(ctx):
             if a != b:
                 ctx.disagreements.append({"cfg": cfg.cfg_line()[:100], "case": a[0]})
                 break
-    # memcheck pass: the same harness under valgrind, the memory an instance is built over marked indeterminate
-    # ("no read of an indeterminate value"): a never-initialised member or stack temporary that is later read is
-    # reported at the read, whatever byte happens to be there
-    mc_cfgs = cfgs if ctx.thorough else cfgs[:3]
-
-    def memcheck_one(cfg):
-        exe, logtxt = MM.build(cfg, memcheck=True)
-        if exe is None:
-            return {"what": "memcheck machine harness does not compile: " + cfg.cfg_line()[:100], "log": "\n".join([l for l in logtxt.split("\n") if "error" in l][:8])}, 0
-        import zlib
-        rng = random.Random(ctx.seed * 7919 + zlib.crc32(cfg.cfg_line().encode()) % 10007)
-        cases = [MM.gen_case(rng, cfg, "m%d" % k, rng.randint(8, 24)) for k in range(60 if ctx.thorough else 18)]
-        if cfg.plans:
-            cases += [MM.statusfirst_case(rng, cfg, "msf%d" % k) for k in range(16 if ctx.thorough else 5)]
-            cases += [MM.reactivation_case(rng, cfg, "mra%d" % k) for k in range(16 if ctx.thorough else 5)]
-
-        def vg(cs, t=600):
-            import subprocess
-            try:
-                return C.run(["valgrind", "-q", "--error-exitcode=9", "--track-origins=yes", exe], input="\n".join(l for c in cs for l in c) + "\n", timeout=t)
-            except subprocess.TimeoutExpired:
-                return -999, ""
-        rc, out = vg(cases)
-        if rc in (0, -999):
-            return None, len(cases)
-        bad, txt = None, out
-        for c in cases:
-            rc1, out1 = vg([c], 120)
-            if rc1 not in (0, -999):
-                bad, txt = c, out1
-                break
-        err = [l for l in txt.split("\n") if l.startswith("==")][:14]
-        return {"what": "valgrind memcheck reports an error in the machine harness (memory under a fresh instance counted as indeterminate): "
-                        + (err[0] if err else "rc=%s" % rc), "valgrind": err, "cfg": cfg.cfg_line(), "minimal_case": bad}, len(cases)
-    with ThreadPoolExecutor(max_workers=C.NCPU) as ex:
-        mres = list(ex.map(memcheck_one, mc_cfgs))
-    ctx.extra["memcheck"] = {"configurations": len(mc_cfgs), "cases": sum(n for _, n in mres), "errors": sum(1 for f, _ in mres if f)}
-    ctx.stats["evaluations"] += sum(n for _, n in mres)
-    for f, _ in mres:
-        if f:
-            ctx.failures.append(f)
+    memcheck_pass(ctx, cfgs if ctx.thorough else cfgs[:3])
     lay, rows = P.layout_check()
     ctx.extra["layout_rows"] = rows[:4]
     if lay:
@@ -565,7 +575,7 @@ REGISTRY = {
     "C11": Spec("FFSM2.Props.C11", ["ids"], machine_run("C11", ("random", "replica")), extra=("FFSM2.Props.History", "FFSM2.Props.OutcomeHistory")),
     "C12": Spec("FFSM2.Props.C12", ["ids", "serial", "bitwidth", "contain", "typebits", "buffers"], c12_run, extra=("FFSM2.Props.History",)),
     "C16": Spec("FFSM2.Props.C16", ["ids"], machine_run("C16"), extra=("FFSM2.Props.History", "FFSM2.Props.RecordsHistory")),
-    "C17": Spec("FFSM2.Props.C17", ["ids"], machine_run("C17", ("random", "reactivate")), extra=("FFSM2.Props.History",)),
+    "C17": Spec("FFSM2.Props.C17", ["ids"], c17_run, extra=("FFSM2.Props.History",)),
 }
 
 
